@@ -347,12 +347,21 @@ def end_to_end_directive(ctx, rng, case, f, d):
         ctx.mark_nontrivial([case.sdl, text, provided])
     got = [x for x in case.directive_args if x[0] == d.name]
     by_py = dict((a.pyname, a) for a in d.args)
+    # mechanism of a listed known finding: a nullable variable (allowed in a non-null position when it
+    # or the argument has a default) explicitly set to null reaches a non-null *directive* argument
+    null_var_args = set()
+    for a in d.args:
+        v = given.get(a.name)
+        if a.type[0] == "nonnull" and isinstance(v, Var) and v.name in provided and provided[v.name] is None:
+            null_var_args.add(a.pyname)
     for _n, val in got:
         if isinstance(val, dict):
             ctx.count("directive_arguments_checked")
             for k, v in val.items():
                 why = refcoerce.conforms(ir, by_py[k].type, v) if k in by_py else "unknown key"
-                if why:
+                if why and k in null_var_args and v is None:
+                    ctx.violation("directive:null-variable-in-non-null-argument", witness, "%s=%r: %s" % (k, v, why))
+                elif why:
                     ctx.violation("directive:kwargs:non-conforming:" + why.split(" holds")[0].split(" is ")[0][:60],
                                   witness, "%s=%r: %s" % (k, v, why))
     if status == "ok":
@@ -364,7 +373,10 @@ def end_to_end_directive(ctx, rng, case, f, d):
             ctx.count("directive_kwargs_equal_model")
     elif status == "reject":
         if got and isinstance(got[0][1], dict):
-            ctx.violation("directive:must-reject-delivered", witness, "model: %s; delivered %r" % (expected, got[0][1]))
+            if null_var_args and all(got[0][1].get(k) is None for k in null_var_args) and str(expected).startswith("argument"):
+                ctx.violation("directive:null-variable-in-non-null-argument", witness, "model: %s; delivered %r" % (expected, got[0][1]))
+            else:
+                ctx.violation("directive:must-reject-delivered", witness, "model: %s; delivered %r" % (expected, got[0][1]))
         else:
             ctx.count("directive_rejections")
 
